@@ -131,6 +131,84 @@ theorem perm_unseen_label_raises {α : Type} [DecidableEq α] (y : List (Option 
   obtain ⟨fwd, h1, _, _, _, hmem⟩ := fit_fitted y lin hlin
   exact ⟨fwd, h1, plain_unseen_raises fwd q u hu (fun h => hnot ((hmem u).mp h))⟩
 
+/-! ### `closest=True`: the nearest-neighbour fallback of the label branch
+
+`_find_closest` (scikit-learn's kd-tree over `list(permutation_)`) is a parameter `near` of the
+model; the theorems hold for every such function (first group) or for every one that returns a
+key of the dictionary it searches (second group; `nearest_mem` shows the model's own `nearest`
+does). -/
+
+/-- The round trip of the property is not affected by `closest=True`, whatever the search returns:
+on every array of fitted labels the transformer and the one returned by `get_fct_inv` (which
+inherits `closest`) give the original targets back, NaN stays NaN. -/
+theorem closest_roundtrip {α : Type} [DecidableEq α] (nearF : Dict α Nat → α → α)
+    (nearI : Dict Nat α → Nat → Nat) (y : List (Option α)) (lin : List Nat)
+    (hlin : lin.Perm (List.range (number y).length)) :
+    ∃ fwd, fit y lin = .ok fwd ∧
+      (∀ q : List (Option α), (∀ u, some u ∈ q → some u ∈ y) →
+        ∃ qT, transformLabelsC nearF fwd q = .ok qT ∧
+          transformLabelsC nearI (getFctInv fwd) qT = .ok q ∧
+          qT.map Option.isSome = q.map Option.isSome) ∧
+      (∀ q : List α, (∀ u ∈ q, some u ∈ y) →
+        ∃ qT, transformPlainC nearF fwd q = .ok qT ∧
+          transformPlainC nearI (getFctInv fwd) qT = .ok q) := by
+  obtain ⟨fwd, h1, hf, _, _, hmem⟩ := fit_fitted y lin hlin
+  have hinv := getFctInv_eq fwd hf.values_nodup
+  refine ⟨fwd, h1, ?_, ?_⟩
+  · intro q hq
+    obtain ⟨qT, a, b, c, _⟩ := labels_roundtrip fwd hf.keys_nodup hf.values_nodup q
+      (fun u hu => (hmem u).mpr (hq u hu))
+    exact ⟨qT, labelsC_of_labels nearF fwd q qT a,
+      by rw [hinv]; exact labelsC_of_labels nearI _ qT q b, c⟩
+  · intro q hq
+    obtain ⟨qT, a, b, _, _⟩ := plain_roundtrip fwd hf.keys_nodup hf.values_nodup q
+      (fun u hu => (hmem u).mpr (hq u hu))
+    exact ⟨qT, plainC_of_plain nearF fwd q qT a,
+      by rw [hinv]; exact plainC_of_plain nearI _ qT q b⟩
+
+/-- `closest=True` changes nothing that `closest=False` accepts: same output, cell by cell. -/
+theorem closest_agrees_where_strict_succeeds {κ β : Type} [DecidableEq κ]
+    (near : Dict κ β → κ → κ) (d : Dict κ β) :
+    (∀ (q : List κ) (r : List β), transformPlain d q = .ok r → transformPlainC near d q = .ok r) ∧
+    (∀ (q : List (Option κ)) (r : List (Option β)), transformLabels d q = .ok r →
+      transformLabelsC near d q = .ok r) :=
+  ⟨plainC_of_plain near d, labelsC_of_labels near d⟩
+
+/-- With a search that returns fitted labels, `closest=True` accepts every label array (no
+RuntimeError, no KeyError), every output is a code drawn by `fit`, and the inverse transformer maps
+the output to the array in which each unseen label is replaced by the label the search returned:
+fitted labels come back exactly, unseen ones are projected on the fitted set. -/
+theorem closest_projects_on_fitted_labels {α : Type} [DecidableEq α] (near : Dict α Nat → α → α)
+    (y : List (Option α)) (lin : List Nat) (hlin : lin.Perm (List.range (number y).length))
+    (hn : ∀ d u, d ≠ [] → near d u ∈ Dict.keys d) (hne : ∃ u, some u ∈ y) (q : List α) :
+    ∃ fwd r, fit y lin = .ok fwd ∧ transformPlainC near fwd q = .ok r ∧ (∀ c ∈ r, c ∈ lin) ∧
+      transformPlain (getFctInv fwd) r =
+        .ok (q.map (fun u => if u ∈ Dict.keys fwd then u else near fwd u)) ∧
+      (∀ u, u ∈ Dict.keys fwd ↔ some u ∈ y) := by
+  obtain ⟨fwd, h1, hf, _, hvals, hmem⟩ := fit_fitted y lin hlin
+  have hinv := getFctInv_eq fwd hf.values_nodup
+  have hne' : fwd ≠ [] := by
+    obtain ⟨u, hu⟩ := hne
+    intro e
+    have := (hmem u).mpr hu
+    simp [e, Dict.keys] at this
+  obtain ⟨r, hr1, hr2, hr3⟩ := plainC_total near fwd (fun u => hn fwd u hne') q
+  refine ⟨fwd, r, h1, hr1, fun c hc => hvals ▸ hr2 c hc, ?_, hmem⟩
+  let sel : α → α := fun u => if u ∈ Dict.keys fwd then u else near fwd u
+  have hsel : ∀ u ∈ q.map sel, u ∈ Dict.keys fwd := by
+    intro u hu
+    obtain ⟨v, _, rfl⟩ := List.mem_map.mp hu
+    by_cases hv : v ∈ Dict.keys fwd
+    · simp [sel, hv]
+    · simp only [sel, hv, if_false]; exact hn fwd v hne'
+  obtain ⟨qT, a, b, _, _⟩ := plain_roundtrip fwd hf.keys_nodup hf.values_nodup (q.map sel) hsel
+  have hs := transformPlain_spec fwd (q.map sel) qT a
+  have : r.map some = qT.map some := by
+    rw [hr3, ← hs, List.map_map]; rfl
+  have hrq : r = qT := List.map_injective_iff.mpr (Option.some_injective _) this
+  rw [hinv, hrq]
+  exact b
+
 /-! ### TransformedTargetClassifier2 (transformer = permutation) -/
 
 /-- `predict` returns original labels: for every inner prediction list made of codes the inner
@@ -339,6 +417,15 @@ example : transform [((3 : Int), 2), (1, 0), (2, 1)] () (.labels [some 3, none, 
 example : transform (getFctInv [((3 : Int), 2), (1, 0), (2, 1)]) () (.labels [some 2, none, some 0, some 2, some 1])
     = .ok ((), .labels [some 3, none, some 1, some 3, some 2]) := by decide
 -- classifier: labels 10,30,20 coded 2,1,0 (not monotone); inner columns are codes 0,1,2 = labels 20,30,10
+/-- `closest=True`, non-vacuity: the model's own search meets the hypothesis of
+`closest_projects_on_fitted_labels`, and an unseen label (7) is sent to the code of the nearest fitted
+label (3) while `closest=False` rejects it -/
+example : ∀ (d : Dict Int Nat) (u : Int), d ≠ [] →
+    nearest (fun u k best => decide ((k - u).natAbs < (best - u).natAbs)) d u ∈ Dict.keys d :=
+  fun d u h => nearest_mem _ d u h
+example : transformPlainC (nearest (fun u k best => decide ((k - u).natAbs < (best - u).natAbs)))
+    [((3 : Int), 2), (1, 0), (2, 1)] [1, 7, 3, -5] = .ok [0, 2, 2, 0] := by decide
+example : transformPlain [((3 : Int), 2), (1, 0), (2, 1)] [1, 7, 3, -5] = .error .runtimeError := by decide
 example : classes leInt (getFctInv [((10 : Int), 2), (30, 1), (20, 0)]) [0, 1, 2] = .ok [10, 20, 30] := by
   simp [classes, classesUnsorted, transformPlain, mapE, lookupE, Dict.get?, getFctInv, Dict.insert,
     Dict.contains, Except.map, List.mergeSort, leInt, List.MergeSort.Internal.splitInTwo]
